@@ -25,6 +25,9 @@ def S(id, entry, enforce, replace=(), loops=(), **kw):
     d = dict(id=id, harness="../sock/sock.c", entry=entry, sources=SRC, enforce=enforce, replace=list(replace), timeout=600)
     if loops:
         d["loops"] = loops_for(*loops)
+    if id in ("io_condition_wait", "send", "receive", "send_to", "receive_from", "connect", "accept", "new", "close"):
+        # native search for a failing fault script (bounded, depth <= 9) with interposed socket calls on the real psocket.c
+        d["replay"] = {"driver": "sock_replay.c", "mode": id, "args": [], "timeout": 300}
     d.update(kw)
     return d
 EM = "p_error_get_io_from_system"
